@@ -541,6 +541,19 @@ pub struct ExploreStats {
     pub max_depth: u64,
 }
 
+/// Exhaustive BFS that only *collects* the histories (for models whose invariant is expensive:
+/// stateright balances load per batch of states, so heavy visits are evaluated afterwards with
+/// `run_cases`, which spreads them evenly; the set of states judged is exactly the set explored).
+pub fn explore_collect(inits: Vec<Vec<u16>>, actions: Box<dyn Fn(&[u16]) -> Vec<u16> + Send + Sync>) -> (ExploreStats, Vec<Vec<u16>>) {
+    let acc: Arc<Mutex<Vec<Vec<u16>>>> = Arc::new(Mutex::new(Vec::new()));
+    let a2 = acc.clone();
+    let model = HistModel { inits, actions, visit: Arc::new(move |h: &[u16]| a2.lock().unwrap().push(h.to_vec())), batch: 1 << 20 };
+    let st = explore(model);
+    let mut v = std::mem::take(&mut *acc.lock().unwrap());
+    v.sort();
+    (st, v)
+}
+
 /// exhaustive BFS over all histories; returns stateright's own counts
 pub fn explore(model: HistModel) -> ExploreStats {
     let threads = std::thread::available_parallelism().map(|n| n.get()).unwrap_or(4);
